@@ -24,9 +24,19 @@ RULE = ('operation histories on 1-3 IOQueues and 0-2 IOStacks sharing one Memory
         'by the model through natlen (c15_len_any*); threaded cases (class T*: 4 threads x 40-60 repetitions, each repetition on a '
         'freshly default-constructed IOQueue + IOStack with private 1024-byte-block pools, every run must give the model trace; '
         'pool identity of all live default-constructed buffers must be distinct; detection of cross-thread interference itself '
-        'is probabilistic, the identity check is deterministic); every observable compared after every op; non-trivial = at '
+        'is probabilistic, the identity check is deterministic; incl. delete + re-create of the default-constructed stack and its '
+        'pool); a NonBlockingSender on one pool fed from stacks / queues of another (class Y*: same scripted writes, limits and '
+        'stream round trips as X*); two-pool histories WITH Purge whose moves stay inside one pool (class Csamepool: per-pool '
+        'counters must be exact); IOQueue::Dump / IOStack::Dump (text must equal FormatData of the content, state unchanged) and '
+        'IOQueue::Purge / IOStack::Purge in the one-pool histories; every observable compared after every op; non-trivial = at '
         'least one byte written and one byte read / peeked / accepted by the descriptor; distinct = distinct model output line')
 ASSUMPTIONS = ['operator new does not fail',
+               'several pools with Purge: c15_multi_purge_exact covers histories whose moves stay inside one pool (then every pool is exact); '
+               'sender / streams over several pools: c15_sender_conserves_multi, c15_stream_roundtrip_multi (no application-level Purge); '
+               'destroying a default-constructed buffer together with its private pool is an executable model only (Multi.destroy_private); '
+               'not modelled: IOQueue::AppendBlock(MemoryBlock*) called directly (only through MoveToIOQueue), MemoryBlockPool::Purge(remaining) '
+               'with remaining > 0 (no caller in the tree; remaining > FreeBlocks() would pop an empty std::queue), Dump text format (checked '
+               'against ola::FormatData by the harness only)',
                'several pools: c15_multi_refines / c15_multi_accounting / c15_multi_buffers prove conservation, Size, iovec and the exact '
                'accounting (totals over all pools; per pool up to the migrated blocks) for the block-level model Multi.v over any number '
                'of pools with blocks of mixed capacities, for histories without Purge; the per-pool clause allocated = free + held is '
@@ -153,6 +163,14 @@ class Gen(object):
         if kind == 'pg':
             self.ops.append('pg')
             return True
+        if kind in ('qd', 'pq'):
+            self.ops.append('%s:%d' % (kind, r.randrange(self.qlo, self.nq)))
+            return True
+        if kind in ('sD', 'ps'):
+            if self.ns == 0:
+                return False
+            self.ops.append('%s:%d' % (kind, r.randrange(self.ns)))
+            return True
         if self.ns == 0:
             return False
         j = r.randrange(self.ns)
@@ -240,7 +258,7 @@ class XGen(Gen):
         return 'X%s %d %d %d %d %s' % (label, self.bs, self.nq, self.ns, self.mx, ' '.join(self.ops))
 
 
-XKINDS = ['sw', 'sw', 'sb', 'qw', 'qw', 'qb', 'xs', 'xs', 'xs', 'xq', 'xq', 'xw', 'xw', 'xw', 'xw', 'xe', 'xl',
+XKINDS = ['qd', 'sD', 'sw', 'sw', 'sb', 'qw', 'qw', 'qb', 'xs', 'xs', 'xs', 'xq', 'xq', 'xw', 'xw', 'xw', 'xw', 'xe', 'xl',
           'qi', 'qi', 'mb', 'sp', 'qr', 'qp', 'qk', 'qs', 'sm', 'qm', 'qc', 'sd', 'pg', 'sr', 'ss']
 
 
@@ -292,7 +310,7 @@ def ccases(rng, count):
     destination (released into ITS pool), then the destination keeps writing / reading (known finding C15-crosspool:
     the pool counters go wrong, the BYTES must not)"""
     pairs = [(1, 2), (2, 1), (4, 8), (8, 4), (2, 3), (3, 2), (1, 4), (4, 1), (3, 8), (8, 3), (2, 5), (5, 2), (4, 4)]
-    ckinds = [k for k in KINDS if k != 'pg']
+    ckinds = [k for k in KINDS if k not in ('pg', 'pq', 'ps')]
     for _ in range(count):
         bsa, bsb = rng.choice(pairs)
         qm = rng.choice(['AB', 'AB', 'BA', 'ABB', 'AAB'])
@@ -340,8 +358,8 @@ def ccases(rng, count):
 
 def tcases(rng, count, threads, reps):
     """several threads, each running the history `reps` times on its own default-constructed IOQueue / IOStack"""
-    # no 'sd': destroying a default-constructed stack also destroys its private pool (every rep does that at its end)
-    kinds = ['qw', 'qw', 'sw', 'sw', 'qr', 'qs', 'qk', 'qp', 'sr', 'ss', 'sp', 'qc', 'sm', 'qw', 'sw']
+    # 'sd' = delete the default-constructed stack (and with it its private pool), then a new IOStack()
+    kinds = ['qw', 'qw', 'sw', 'sw', 'qr', 'qs', 'qk', 'qp', 'sr', 'ss', 'sp', 'sd', 'qc', 'sm', 'qw', 'sw', 'qd', 'sD']
     for _ in range(count):
         g = Gen(rng, 1024, 1, 1)
         g.wlen = lambda: rng.choice([1, 3, 100, 1023, 1024, 1025, 2048, 2049, 2500, rng.randrange(1, 3000)])
@@ -353,6 +371,60 @@ def tcases(rng, count, threads, reps):
         if not any(t[:2] in ('qw', 'sw') for t in g.ops):
             g.ops.insert(0, 'qw:0:' + hx(g.data(1500)))
         yield 'Tthreads %d %d %s' % (threads, reps, ' '.join(g.ops))
+
+
+def ycases(rng, count):
+    """NonBlockingSender whose output buffer (queue 0) is on one pool, messages built on stacks / queues of the
+    other pool (and of its own), scripted partial writes; plus stream round trips on foreign-pool queues"""
+    pairs = [(1, 2), (2, 1), (4, 8), (8, 4), (2, 3), (3, 2), (1, 4), (4, 1), (3, 8), (8, 3), (4, 4)]
+    for _ in range(count):
+        bsa, bsb = rng.choice(pairs)
+        qm = rng.choice(['AB', 'AB', 'BA', 'ABB', 'AAB', 'BAB'])
+        sm = rng.choice(['B', 'A', 'AB', 'BA'])
+        mx = rng.choice([1, bsa + bsb, 10, 1024, 4294967295])
+        g = XGen(rng, bsa, len(qm), len(sm), mx)
+        for _ in range(rng.randrange(1, 6)):
+            for _ in range(rng.randrange(0, 3)):
+                g.bs = rng.choice([bsa, bsb])
+                g.xemit(rng.choice(['sw', 'sb', 'qw', 'qb', 'sw']))
+            g.xemit(rng.choice(['xs', 'xs', 'xq', 'xl']))
+            for _ in range(rng.randrange(0, 3)):
+                g.bs = rng.choice([bsa, bsb])
+                g.xemit(rng.choice(['xw', 'xw', 'xe', 'xl', 'qi', 'qd', 'sD', 'qr', 'sm', 'qm']))
+        while g.q[0] > 0 and rng.random() < 0.7 and len(g.ops) < 60:
+            g.xemit('xw')
+        yield 'Ysnd2 %d %d %s %s %d %s' % (bsa, bsb, qm, sm, mx, ' '.join(g.ops))
+
+
+def samepool(rng, count):
+    """two pools, Purge included, moves only between buffers of the same pool: per-pool accounting must be exact"""
+    for _ in range(count):
+        bsa, bsb = rng.choice([(1, 2), (2, 1), (4, 8), (2, 3), (3, 2), (4, 4), (1, 4)])
+        qm = rng.choice(['AAB', 'ABB', 'AABB', 'AB'])
+        sm = rng.choice(['A', 'B', 'AB'])
+        g = Gen(rng, bsa, len(qm), len(sm))
+        n = rng.choice([6, 12, 25])
+        tries = 0
+        while len(g.ops) < n and tries < 6 * n:
+            tries += 1
+            g.bs = rng.choice([bsa, bsb])
+            k = rng.choice(['qw', 'qw', 'sw', 'qr', 'qs', 'qp', 'qk', 'sr', 'sp', 'qc', 'sd', 'pg', 'pg', 'qm', 'sm', 'qd', 'sD', 'qb'])
+            before = len(g.ops)
+            g.emit(k)
+            if len(g.ops) > before and k in ('qm', 'sm'):
+                t = g.ops[-1].split(':')
+                a, b = int(t[1]), int(t[2])
+                same = (qm[a] == qm[b]) if k == 'qm' else (sm[a] == qm[b])
+                if not same:
+                    # undo: the generator's size tracking was updated by emit, redo it by hand
+                    g.ops.pop()
+                    if k == 'qm':
+                        g.q[b] = 0  # conservative: sizes are only used to aim lengths
+                    else:
+                        g.s[a] = 0
+        if not g.ops:
+            g.ops.append('qw:0:' + hx(g.data(bsa + bsb)))
+        yield 'Csamepool %d %d %s %s %s' % (bsa, bsb, qm, sm, ' '.join(g.ops))
 
 
 def bigcases():
@@ -370,7 +442,7 @@ def bigcases():
                 bs, blocks, bs, pat(n), 100000, 100000, pat(n), 100000)
 
 
-KINDS = ['qw', 'qw', 'qw', 'qb', 'qr', 'qr', 'qs', 'qs', 'qk', 'qp', 'qc', 'qm', 'pg',
+KINDS = ['qd', 'sD', 'pq', 'ps', 'qw', 'qw', 'qw', 'qb', 'qr', 'qr', 'qs', 'qs', 'qk', 'qp', 'qc', 'qm', 'pg',
          'sw', 'sw', 'sw', 'sb', 'sr', 'ss', 'sp', 'sm', 'sm', 'sd']
 
 
@@ -454,6 +526,10 @@ def gen_cases(rng, tier):
         yield c
     for c in ccases(rng, 2500 if quick else 60000):
         yield c
+    for c in samepool(rng, 1200 if quick else 30000):
+        yield c
+    for c in ycases(rng, 2000 if quick else 50000):
+        yield c
     for c in xcases(rng, 4000 if quick else 100000):
         yield c
     for _ in range(3000 if quick else 120000):
@@ -473,7 +549,7 @@ def gen_cases(rng, tier):
 
 def nontrivial(payload, md):
     ext = payload[0] in 'XC'
-    toks = payload.split()[3 if payload[0] == 'T' else 5 if ext else 4:]
+    toks = payload.split()[3 if payload[0] == 'T' else 6 if payload[0] == 'Y' else 5 if ext else 4:]
     wrote = any(t[:2] in ('qw', 'sw') and not t.endswith(':-') or t[:2] in ('qb', 'sb') for t in toks)
     if ext and not any(t[:2] == 'mb' for t in toks):
         # sender / stream histories: bytes written AND bytes that came out (descriptor, read or stream)
